@@ -431,3 +431,50 @@ def rand_matrix(rng, m, n, alphabet, density_num=5, density_den=10):
 
 def transpose(M, m, n):
     return [[M[i][j] for i in range(m)] for j in range(n)]
+
+
+# ---------------------------------------------------------------------------------------------
+# call site of a crash: the case is run once more on the assertion + sanitizer build under gdb; the key names the failed
+# assertion / signal and the innermost two library functions on the stack (no line numbers, no addresses)
+
+_site_cache = {}
+
+
+def crash_site(api, line, extra_defs=()):
+    k = (api, line, tuple(extra_defs))
+    if k in _site_cache:
+        return _site_cache[k]
+    site = None
+    try:
+        exe = build_drive("dbg", extra_defs, tag=("x" + hashlib.md5(" ".join(extra_defs).encode()).hexdigest()[:6]) if extra_defs else None)
+        d = os.path.join(WORK, "site-%d" % os.getpid())
+        os.makedirs(d, exist_ok=True)
+        inp = os.path.join(d, "case.txt")
+        open(inp, "w").write(line + "\n")
+        env = dict(os.environ)
+        env["ASAN_OPTIONS"] = "detect_leaks=0:abort_on_error=1"
+        r = subprocess.run(["gdb", "-batch", "-ex", "run %s < %s" % (api, inp), "-ex", "bt 24", exe],
+                           capture_output=True, text=True, timeout=300, env=env)
+        out = r.stdout + r.stderr
+        what = None
+        ms = [x for x in re.findall(r"Assertion `(.*?)' failed", out) if "%" not in x]
+        m = None
+        if ms:
+            what = "assert:" + ms[0][:60]
+        else:
+            m = re.search(r"ERROR: AddressSanitizer: ([\w-]+)", out) or re.search(r"runtime error: ([^\n]{0,60})", out)
+            if m:
+                what = "san:" + re.sub(r"0x[0-9a-f]+|-?\d+", "N", m.group(1))
+            else:
+                m = re.search(r"received signal (SIG\w+)", out)
+                if m:
+                    what = m.group(1)
+        fr = re.findall(r"^#\d+\s+(?:0x[0-9a-f]+ in )?(\w+) \(.*?\) at /repo/src/cmr/[\w.]+:\d+", out, re.M)
+        fr = [f for f in fr if not f.startswith("_CMR")]
+        if what and fr:
+            site = "%s@%s" % (what, "<".join(fr[:2]))
+        shutil.rmtree(d, ignore_errors=True)
+    except Exception:
+        site = None
+    _site_cache[k] = site
+    return site
